@@ -86,7 +86,9 @@ def session(py7zr, names, via):
         stored = abstract(z.files[after - 1].filename) if after > before else {"lead": 0, "comps": [], "trail": False}
         if after > before:
             accepted.append(s)
-        evs.append({"e": via, "name": abstract(s), "str": s[:80].encode("utf-8", "backslashreplace").decode(), "before": before, "after": after, "exc": exc, "stored": stored})
+        unstorable = "\x00" in s or any(0xD800 <= ord(ch) <= 0xDFFF for ch in s)
+        evs.append({"e": via, "name": abstract(s), "str": s[:80].encode("utf-8", "backslashreplace").decode(), "before": before, "after": after, "exc": exc, "stored": stored,
+                    "unstorable": unstorable})
     try:
         z.close()
     except UnicodeEncodeError:
